@@ -23,10 +23,10 @@ func missingBadKinds(m *Merged) []string {
 
 func init() {
 	register(&Prop{
-		ID:     "C04",
-		Run:    RunC04,
-		Replay: func(c *Ctx, entry, input string) { CheckC04(c, entry, input) },
-		Rule:   "cases = (entry, input): corpus (clean and !bad_) under its entries and the list entries, type seeds, nesting families, generated sentences of grammar G, token mutants / splices / random bytes, and an operand matrix (every primary-expression form x binary/unary/postfix/comparison context, complete and truncated); for every returned tree SQL(), Pos(), End() are called on every reflectively enumerated node and Walk/Inspect/Preorder(+Many) on every root; distinct_nontrivial = distinct (entry,input)",
+		ID:          "C04",
+		Run:         RunC04,
+		Replay:      func(c *Ctx, entry, input string) { CheckC04(c, entry, input) },
+		Rule:        "cases = (entry, input): corpus (clean and !bad_) under its entries and the list entries, type seeds, nesting families, generated sentences of grammar G, token mutants / splices / random bytes, and an operand matrix (every primary-expression form x binary/unary/postfix/comparison context, complete and truncated); for every returned tree SQL(), Pos(), End() are called on every reflectively enumerated node and Walk/Inspect/Preorder(+Many) on every root; distinct_nontrivial = distinct (entry,input)",
 		Assumptions: []string{"nodes are enumerated by reflection over exported fields, independently of ast.Walk"},
 		Floors: func(m *Merged) []string {
 			f := missingBadKinds(m)
@@ -41,10 +41,10 @@ func init() {
 		},
 	})
 	register(&Prop{
-		ID:     "C05",
-		Run:    RunC05,
-		Replay: func(c *Ctx, entry, input string) { CheckC05(c, entry, input) },
-		Rule:   "cases = (entry, input) as in C04's tree workload; every node's Pos()/End() is checked against range, token boundaries of memefish.Lexer on the same input (midpoints of >> and <> added), containment in the parent and sibling order (CreateTable exempt); error trees: range, nesting, order only; distinct_nontrivial = distinct accepted (entry,input)",
+		ID:          "C05",
+		Run:         RunC05,
+		Replay:      func(c *Ctx, entry, input string) { CheckC05(c, entry, input) },
+		Rule:        "cases = (entry, input) as in C04's tree workload; every node's Pos()/End() is checked against range, token boundaries of memefish.Lexer on the same input (midpoints of >> and <> added), containment in the parent and sibling order (CreateTable exempt); error trees: range, nesting, order only; distinct_nontrivial = distinct accepted (entry,input)",
 		Assumptions: []string{"token boundaries come from memefish.Lexer, itself checked against the reference lexer by C13/C14"},
 		Floors: func(m *Merged) []string {
 			if m.Counters["trees_clean"] == 0 || m.Counters["trees_with_error"] == 0 {
@@ -54,10 +54,10 @@ func init() {
 		},
 	})
 	register(&Prop{
-		ID:     "C09",
-		Run:    RunC09,
-		Replay: func(c *Ctx, entry, input string) { CheckC09(c, entry, input) },
-		Rule:   "cases = (entry, input) as in C04's tree workload (valid, mutated-valid, arbitrary); implications between error and Bad nodes, error element well-formedness, and for every accepted input the probe input+\"\\n)\" which must be rejected; distinct_nontrivial = distinct (entry,input)",
+		ID:          "C09",
+		Run:         RunC09,
+		Replay:      func(c *Ctx, entry, input string) { CheckC09(c, entry, input) },
+		Rule:        "cases = (entry, input) as in C04's tree workload (valid, mutated-valid, arbitrary); implications between error and Bad nodes, error element well-formedness, and for every accepted input the probe input+\"\\n)\" which must be rejected; distinct_nontrivial = distinct (entry,input)",
 		Assumptions: []string{"'input remains => error' is decided by the trailing-junk probe, not by node positions (see DESIGN 3.C09)"},
 		Floors: func(m *Merged) []string {
 			if m.Counters["clean"] == 0 || m.Counters["with_bad_nodes"] == 0 || m.Counters["probes"] == 0 {
@@ -67,10 +67,10 @@ func init() {
 		},
 	})
 	register(&Prop{
-		ID:     "C10",
-		Run:    RunC10,
-		Replay: func(c *Ctx, entry, input string) { CheckC10(c, entry, input) },
-		Rule:   "cases = (entry, input) producing >= 1 Bad node, from token mutants / splices / random bytes / !bad_ corpus files / unclosed nesting and hand-written seeds (comment-separated tokens, split >>, nested recoveries); each BadNode is compared with the token stream of the whole input (NextToken, or the recovery-mode lexer via hook H2 when the input does not lex); distinct_nontrivial = distinct (entry,input) with >= 1 Bad node",
+		ID:          "C10",
+		Run:         RunC10,
+		Replay:      func(c *Ctx, entry, input string) { CheckC10(c, entry, input) },
+		Rule:        "cases = (entry, input) producing >= 1 Bad node, from token mutants / splices / random bytes / !bad_ corpus files / unclosed nesting and hand-written seeds (comment-separated tokens, split >>, nested recoveries); each BadNode is compared with the token stream of the whole input (NextToken, or the recovery-mode lexer via hook H2 when the input does not lex); distinct_nontrivial = distinct (entry,input) with >= 1 Bad node",
 		Assumptions: []string{"tokens are taken from lexing the whole input (not the substring) because token kinds after '.' are context-sensitive; SQL() of a Bad node is re-lexed after the two preceding input tokens for the same reason"},
 		Floors: func(m *Merged) []string {
 			f := missingBadKinds(m)
@@ -173,11 +173,11 @@ func init() {
 
 func init() {
 	register(&Prop{
-		ID:     "C18",
-		Run:    RunC18,
-		Replay: ReplayC18,
-		Race:   true,
-		Rule:   "worker built with -race; determinism set = corpus under every entry + 2-statement lists + SplitRawStatements + type seeds + token mutants (same in every shard); per shard: sequential reference digests (tree incl. positions, SQL, Pos/End of every node, walk count, error list), repetition in shuffled order interleaved with unrelated calls, aliasing check of address sets of separately returned trees + mutation of a returned tree followed by a repeat, rounds of 64 goroutines released on a barrier (each with its own order, hot inputs shared) whose digests are compared with the sequential ones, package-table digest before/after; shards are fresh processes and must agree on the digest of the whole set; race reports are counted in GORACE log files; distinct_nontrivial = distinct (entry,input) of the determinism set",
+		ID:          "C18",
+		Run:         RunC18,
+		Replay:      ReplayC18,
+		Race:        true,
+		Rule:        "worker built with -race; determinism set = corpus under every entry + 2-statement lists + SplitRawStatements + type seeds + token mutants (same in every shard); per shard: sequential reference digests (tree incl. positions, SQL, Pos/End of every node, walk count, error list), repetition in shuffled order interleaved with unrelated calls, aliasing check of address sets of separately returned trees + mutation of a returned tree followed by a repeat, rounds of 64 goroutines released on a barrier (each with its own order, hot inputs shared) whose digests are compared with the sequential ones, package-table digest before/after; shards are fresh processes and must agree on the digest of the whole set; race reports are counted in GORACE log files; distinct_nontrivial = distinct (entry,input) of the determinism set",
 		Assumptions: []string{"the race detector only sees accesses that execute; schedules are not enumerated", "sharing one Parser/Lexer/File value between goroutines is out of scope"},
 		Floors: func(m *Merged) []string {
 			var f []string
@@ -188,6 +188,52 @@ func init() {
 				f = append(f, "concurrent calls and alias pairs must be observed")
 			}
 			return f
+		},
+	})
+}
+
+func init() {
+	register(&Prop{
+		ID:          "C02",
+		Run:         RunC02,
+		Replay:      func(c *Ctx, entry, input string) { CheckC02(c, entry, input) },
+		Rule:        "cases = sentences of grammar G (systematic each-choice set under 3 render policies + random derivations under random trivia / case / quoting), plus corpus files and accepted token mutants; expected = significant tokens of the input by the independent reference lexer in normal form (identifiers by name, literals by decoded value, numbers by spelling, keywords / punctuation by kind), observed = the same normal form of SQL(); only the documented canonicalisations are applied (noise words INNER/OUTER/INTO/ARE/DELETE's FROM, <> vs !=, >> split, optional commas, CREATE TABLE element grouping); distinct_nontrivial = distinct token-kind skeletons of accepted inputs with >= 5 tokens",
+		Assumptions: []string{"the reference lexer (not the parser, not memefish.Lexer) tokenizes both the input and SQL()", "pseudo-keywords compare case-insensitively, user identifiers exactly"},
+		Floors: func(m *Merged) []string {
+			if m.Counters["accepted"] < 1000 || m.Counters["g_systematic"] == 0 {
+				return []string{"accepted inputs and the systematic set must be observed"}
+			}
+			return nil
+		},
+	})
+	register(&Prop{
+		ID:          "C08",
+		Run:         RunC08,
+		Replay:      func(c *Ctx, entry, input string) { CheckC08(c, entry, input) },
+		Rule:        "cases = sentences of grammar G written from the documentation (internal/gen/grammar.go, ddl.go; scope in internal/gen/SCOPE.md): the systematic each-choice set (every alternative of every production, every optional clause on/off, every list at lengths min/min+1/3) under upper-case/canonical, lower-case/tight and random-case/hostile-trivia renderings, plus random derivations; each must be accepted by its entry point and by ParseStatement with reflect.DeepEqual trees (positions included); random ';'-joined lists of 0-5 accepted sentences with and without trailing ';' through ParseStatements/ParseDDLs/ParseDMLs; distinct_nontrivial = distinct token-kind skeletons",
+		Assumptions: []string{"G is the reference grammar; constructs memefish does not implement are excluded and recorded in SCOPE.md", "documented forms that memefish rejects are fixed scope probes, listed in KNOWN_FINDINGS.txt by exact input"},
+		Floors: func(m *Merged) []string {
+			var f []string
+			if m.Counters["lists_checked"] == 0 || m.Counters["entry_pairs_compared"] == 0 {
+				f = append(f, "lists and entry-point pairs must be observed")
+			}
+			if m.Max["grammar_alternatives_taken_by_systematic_set"] < 0.99*m.Max["grammar_alternatives_total"] {
+				f = append(f, "systematic set does not take every alternative")
+			}
+			return f
+		},
+	})
+	register(&Prop{
+		ID:          "C16",
+		Run:         RunC16,
+		Replay:      ReplayC16,
+		Rule:        "cases = (accepted text, re-spelling): sentences of G re-rendered k times with hostile trivia (blanks, tabs, newlines, CR LF, /* */, --, #, // comments containing ; ' \" `) and lower / mixed / random case of reserved keywords AND pseudo-keywords (roles known to the generator), identifiers and literals spelled identically; corpus files re-spelled in trivia and reserved-keyword case only; every re-spelling passes the re-lex guard (same token sequence by the reference lexer); distinct_nontrivial = distinct sentence skeletons / corpus files",
+		Assumptions: []string{"whitespace is ASCII white space (the reference lexer does not judge other Unicode spaces)", "trivia next to a '.' is left unchanged in corpus re-spellings (documentation silent)"},
+		Floors: func(m *Merged) []string {
+			if m.Counters["respellings_compared"] < 1000 {
+				return []string{"fewer than 1000 re-spellings compared"}
+			}
+			return nil
 		},
 	})
 }
